@@ -7,6 +7,7 @@ from weight import WeightModel
 from tickermodel import TickerModel
 from ackmodel import AckModel
 
+WITNESSES = ['W1SoftDeletePrivate']
 LEVEL = "other"
 EXPLANATION = ("Structural conditions for 'delete hides at once and releases completely': the public delete "
                "soft-deletes the entry of the same key on the caller thread before the command is queued (so before "
